@@ -120,8 +120,10 @@ def run(rep, prog, tier):
             else:
                 rep.violation("C07.torque", prog, fn, blk, "net contact torque != 0 (block of %d add_force)" % len(calls),
                               "the forces of the block at line %s are not distributed with the weights that define the contact point: sum(pos_k x F_k) != 0 (%s)" % (blk.get("l"), getattr(ev, "last_witness", "")))
-            # range
-            range_rule(rep, prog, fn, fi, blk, store, "force block at line %s" % blk.get("l"))
+            # range: an adhesive block needs the adhesion cut-off, a repulsive one the repulsion (or max) cut-off
+            kind = block_kind(fi, blk)
+            range_rule(rep, prog, fn, fi, blk, store, "%sforce block at line %s" % (kind + " " if kind else "", blk.get("l")),
+                       want={"adhesive": "adhesion", "repulsive": None}.get(kind), exclude={"repulsive": "adhesion"}.get(kind))
             # restoring sign in the repulsive block
             flag = repulsive_guard(fi, blk)
             if flag is not None:
@@ -203,7 +205,21 @@ def ctor_store(rep, prog, cm):
     return st
 
 
-def range_rule(rep, prog, fn, fi, node, store, what, want=None):
+def block_kind(fi, blk):
+    for cond, pol in fi.guards(blk):
+        for x in walk(cond):
+            if x.get("k") == "DeclRefExpr" and x.get("t", "").replace("const ", "") == "bool":
+                from ..e2 import _negations_above
+                truth = (pol != _negations_above(cond, x))
+                nm = x["ref"]["name"]
+                if "repuls" in nm:
+                    return "repulsive" if truth else "adhesive"
+                if "adhes" in nm:
+                    return "adhesive" if truth else "repulsive"
+    return None
+
+
+def range_rule(rep, prog, fn, fi, node, store, what, want=None, exclude=None):
     ok = None
     seen = []
     for cond, pol in fi.guards(node):
@@ -218,7 +234,7 @@ def range_rule(rep, prog, fn, fi, node, store, what, want=None):
                 if r.get("k") == "MemberExpr" and "cutoff_square" in r["ref"].get("qn", ""):
                     seen.append(r["ref"]["name"])
                     lhs_ok = l.get("k") == "DeclRefExpr" and ("squared_distance" in l["ref"]["name"])
-                    if lhs_ok and (want is None or want in r["ref"]["name"]):
+                    if lhs_ok and (want is None or want in r["ref"]["name"]) and not (exclude and exclude in r["ref"]["name"]):
                         ok = r["ref"]["name"]
     if ok:
         rep.ok("C07.range", prog, fn, node, "%s dominated by <squared distance> < %s" % (what, ok))
